@@ -237,3 +237,16 @@ Example bridge_candidates_here :
   [ ([PKey (C01.A.nm "o")], [[PKey (C01.A.nm "o"); PKey (C01.A.nm "n")]]);
     ([PKey (C01.A.nm "l")], [[PKey (C01.A.nm "l"); PIdx 1]]) ].
 Proof. vm_compute. split; reflexivity. Qed.
+
+(** round 7: [plan] has no prefilled promise, [plan_pre] has — the hypothesis of the NoPrefill
+    theorems is satisfiable and not trivially true *)
+From ApiFu Require Import Fut.NoPrefill.
+Example nopre_plan : nopre plan = true /\ nopre plan_pre = false.
+Proof. split; reflexivity. Qed.
+Example nopre_build_here :
+  exists f s1, exec_sel fixed_flags plan [] st0 = (f, s1) /\ NP st0 s1 /\ NPfut f /\ List.length (s_proms s1) = 2%nat.
+Proof.
+  destruct (exec_sel fixed_flags plan [] st0) as [f s1] eqn:E. exists f, s1. split; auto.
+  destruct (no_prefill_build plan [] st0 f s1 (proj1 nopre_plan) E) as [N F]. split; auto. split; auto.
+  assert (X : snd (exec_sel fixed_flags plan [] st0) = s1) by (now rewrite E). rewrite <- X. reflexivity.
+Qed.
